@@ -68,9 +68,124 @@ def close(e, g):
     return abs(a - b) <= Fraction(1, 10 ** 9) * max(abs(a), abs(b), 1)
 
 
+# class labels of REPAIRED log-search deviations (known_findings.txt `fixed:` lines; the specification no longer emits
+# them).  Like M_FIXED on the metrics side they never excuse anything: should one reappear, a disagreement that a still
+# recorded class of the query can explain is reported under that class alone, and one that only repaired classes could
+# explain is reported as e2e/<what>/<repaired class> — a sig no `known:` line lists, i.e. a VIOLATION under the name the
+# defect had.
+L_FIXED = {"free-text-negation", "negation-over-sparse-field", "numeric-string-value-numeric-literal",
+           "number-and-text-share-column", "int-value-decimal-literal", "by-field-sparse", "measure-field-sparse",
+           "measure-field-absent-from-dataset"}
+
+
 def cls_sig(kind, cls):
     # labels "grant:…" only switch on a latitude of the comparison; they are not deviation classes
-    return "e2e/%s/%s" % (kind, "+".join(sorted(set(c for c in cls.split(",") if c and not c.startswith("grant:")))) or "plain")
+    cs = set(c for c in cls.split(",") if c and not c.startswith("grant:"))
+    if cs - L_FIXED:
+        cs -= L_FIXED
+    return "e2e/%s/%s" % (kind, "+".join(sorted(cs)) or "plain")
+
+
+def agg_ok(name, e, g):
+    """one aggregate: expected (exact rational of the specification, or none) vs got.  count / min / max are exact;
+    distinct-count is exact while the sketch still holds the values themselves (the engine's HLL keeps an explicit set up
+    to several thousand values), beyond that within 3 %; sums and averages up to floating-point rounding."""
+    if e == "none":
+        return True  # an aggregate over no numeric input is undefined: whatever the engine prints is accepted
+    fn = name.split(".")[0]
+    if fn in ("count", "min", "max", "dc"):
+        try:
+            a, b = Fraction(e), Fraction(g)
+        except Exception:
+            return e == g
+        if fn == "dc" and a > 1000:
+            return abs(a - b) * 100 <= 3 * a
+        return a == b
+    return close(e, g)
+
+
+def tc_cells(s):
+    d = {}
+    for r in s.split(","):
+        if r:
+            k, _, v = r.partition("=")
+            d[k] = v.split(";")
+    return d
+
+
+def tc_fold_null(got, aggs):
+    """fold the nameless series (_) into the NULL series (~), cell by cell.  A side is known to be empty only through a
+    count(*) of 0; a side whose values are all 0 without a count may be empty or may hold events whose aggregate is 0.
+    count/sum add up either way; min/max/avg/dc of two sides that both (may) hold events cannot be folded exactly: the
+    candidates are listed (anyof:) or the value is not compared (any)."""
+    out = {k: v for k, v in got.items() if not k.endswith(":_")}
+    ci = [i for i, a in enumerate(aggs) if a == "count"]
+
+    def empty(v):
+        if ci and len(v) == len(aggs):
+            return v[ci[0]] in ("0", "none", "missing")
+        return None if all(y in ("0", "none", "missing") for y in v) else False
+    for k, v in got.items():
+        if not k.endswith(":_"):
+            continue
+        nk = k[:-1] + "~"
+        w = out.get(nk)
+        if w is None or empty(w) is True:
+            out[nk] = v
+            continue
+        if empty(v) is True:
+            continue
+        ev_, ew_ = empty(v), empty(w)
+        m = []
+        for a, x, y in zip(aggs, v, w):
+            fn = a.split(".")[0]
+            try:
+                fx, fy = Fraction(x), Fraction(y)
+            except Exception:
+                m.append("any")
+                continue
+            if fn in ("count", "sum"):
+                m.append(str(fx + fy))
+            elif fn in ("min", "max"):
+                both = str(min(fx, fy) if fn == "min" else max(fx, fy))
+                cands = [both] + ([str(fx)] if ew_ is None else []) + ([str(fy)] if ev_ is None else [])
+                m.append("anyof:" + "|".join(cands))
+            elif ew_ is None and ev_ is False:
+                m.append("anyof:%s|any" % fx)
+            elif ev_ is None and ew_ is False:
+                m.append("anyof:%s|any" % fy)
+            else:
+                m.append("any")
+        out[nk] = m
+    return out
+
+
+def tc_val_ok(a, e, g):
+    if g == "any":
+        return True
+    if g.startswith("anyof:"):
+        return any(c == "any" or agg_ok(a, e, c) for c in g[6:].split("|"))
+    return agg_ok(a, e, g)
+
+
+def tc_diff(exp, got, aggs):
+    """cells of a timechart.  The engine lists every series of the answer in every cell it reports; a cell the
+    specification does not have holds no event and must say so (0 / nothing).  The NULL series (events lacking the
+    by-field) is optional as a whole: reported → it must be right."""
+    diff = []
+    null_reported = any(k.endswith(":~") for k in got)
+    for k in sorted(set(exp) | set(got)):
+        if k.endswith(":~") and not null_reported:
+            continue
+        ev, gv = exp.get(k), got.get(k)
+        if ev is None:
+            if any(x not in ("0", "none", "missing") for x in gv):
+                diff.append((k, ";".join(gv), "no event in this cell"))
+        elif gv is None:
+            diff.append((k, None, ";".join(ev)))
+        elif len(ev) != len(gv) or len(ev) != len(aggs) or not all(tc_val_ok(a, e, g) for a, e, g in zip(aggs, ev, gv)):
+            diff.append((k, ";".join(gv), ";".join(ev)))
+    return diff
 
 
 # ---------------------------------------------------------------- metrics (suite e2e_metrics; spec lean/SigModel/Spec/Metrics.lean)
@@ -352,6 +467,9 @@ def compare(impl, model):
                 continue
             # columns that hold non-numeric text somewhere in the answer (latitude: numbers there may be text)
             texty = set(x for x in mb.get("texty", "").split(",") if x)
+            # (vid:column) of the numeric strings whose OWN block holds a JSON number in that column (absent: an answer
+            # of an older format, every pair granted)
+            nsgrant = set(x for x in mb["nsgrant"].split(",") if x) if "nsgrant" in mb else None
             gmap = {r[0]: r for r in got}
             for vid, ts, fs in exp:
                 g = gmap[vid]
@@ -377,7 +495,11 @@ def compare(impl, model):
                         fails.append(("e2e/recs/number-returned-as-text", "query %d event %s: %s sent %s returned %s" % (qi, vid, k, v, w)))
                         continue
                     if v[0] == "s" and w[0] in "id" and nv is not None and nv == nw:
-                        fails.append(("e2e/recs/numeric-string-returned-as-number", "query %d event %s: %s sent %s returned %s" % (qi, vid, k, v, w)))
+                        if nsgrant is None or "%s:%s" % (vid, k) in nsgrant:
+                            # recorded class: one type per BLOCK column, a numeric string next to numbers becomes a number
+                            fails.append(("e2e/recs/numeric-string-returned-as-number", "query %d event %s: %s sent %s returned %s" % (qi, vid, k, v, w)))
+                        else:
+                            fails.append(("e2e/recs/numeric-string-returned-as-number/no-number-in-its-block", "query %d event %s: %s sent %s (text) returned %s (number) although no event of its block holds a number in %s" % (qi, vid, k, unhex(v[1:]), w[1:], k)))
                         continue
                     if v[0] == "b" and w[0] == "s" and unhex(w[1:]) == ("true" if v == "b1" else "false") and k in texty | {k}:
                         # a bool sharing a column with other types may come back as its text (same latitude class)
@@ -395,6 +517,30 @@ def compare(impl, model):
             if er != gr:
                 keys = sorted(set(er) | set(gr))
                 fails.append(("e2e/timechart/plain", "query %d: (bucket, got, expected) %s" % (qi, [(k, gr.get(k), er.get(k)) for k in keys if gr.get(k) != er.get(k)][:6])))
+        elif kind == "tchart":
+            # first-stage timechart: every matched event in exactly the cell [start + k·span, +span) that contains its
+            # timestamp.  Readings accepted for an event exactly ON the end bound when the bound lies on the grid: last
+            # cell closed (rows) or a cell of its own (rows2).  rowsdev = the answer under the recorded deviation (end bound
+            # off the grid): accepted as that known finding only when the answer is exactly it.
+            if int(mb.get("nmay", 0)) > 0:
+                continue
+            aggs = [a for a in mb.get("aggs", "").split(",") if a]
+            got = tc_cells(ia.get("rows", ""))
+            split = any(k.endswith(":_") for k in got)
+            if split:
+                # recorded deviation (e2e/timechart/null-series-split): the events lacking the by-field are reported as TWO
+                # series, "<nil>" and a nameless one.  The two are folded into one NULL series before the comparison
+                # (count/sum added, min/max combined; avg and dc of a cell where both hold events cannot be folded and are
+                # not compared); everything else must still be right, and the split itself is reported.
+                got = tc_fold_null(got, aggs)
+                fails.append(("e2e/timechart/null-series-split", "query %d: the events lacking the by-field are reported as two series (\"<nil>\" and a series without a name) instead of one" % qi))
+            d0 = tc_diff(tc_cells(mb.get("rows", "")), got, aggs)
+            if not d0 or ("rows2" in mb and not tc_diff(tc_cells(mb["rows2"]), got, aggs)):
+                continue
+            if "rowsdev" in mb and not tc_diff(tc_cells(mb["rowsdev"]), got, aggs):
+                fails.append(("e2e/timechart/event-at-end-bound-off-grid", "query %d (span %s): an event exactly on the end bound of the range is reported in a cell starting at end − span, which is not a cell of the grid start + k·span: (cell:series, got, expected) %s" % (qi, mb.get("span"), d0[:4])))
+                continue
+            fails.append((cls_sig("timechart", cls), "query %d (span %s): (cell:series, got, expected) %s" % (qi, mb.get("span"), [(c.split(":")[0] + ":" + (unhex(c.split(":")[1]) if c.split(":")[1] not in "-~" else c.split(":")[1]), g, e) for c, g, e in d0][:6])))
         elif kind == "stats":
             if int(mb.get("nmay", 0)) > 0:
                 continue
@@ -406,12 +552,14 @@ def compare(impl, model):
                         d[k] = v
                 return d
             er, gr = rows(mb.get("rows", "")), rows(ia.get("rows", ""))
+            aggs = [a for a in mb.get("aggs", "").split(",") if a]
             # an aggregate over no numeric input is undefined: whatever the engine prints is accepted
             for k in list(er):
                 if k in gr:
                     ev_, gv_ = er[k].split(";"), gr[k].split(";")
                     if len(ev_) == len(gv_):
-                        gr[k] = ";".join(e if (e == "none" or close(e, g)) else g for e, g in zip(ev_, gv_))
+                        names = aggs if len(aggs) == len(ev_) else ["sum"] * len(ev_)
+                        gr[k] = ";".join(e if agg_ok(a, e, g) else g for a, e, g in zip(names, ev_, gv_))
             # events lacking a by-field: the statement does not say whether they form a group; an extra
             # group with the empty key is accepted
             if "grant:empty-by-key" in cls.split(","):
